@@ -13,8 +13,10 @@ except through UpdateContextFromStatic.*
 The model (`Model/C13.lean`) transcribes the real multi-pass protocol: `build` constructs the objects
 bottom-up, every sequence running `_set_context({})` over its children in its constructor (`loop`, with the
 skip-while-empty optimisation, stale `_static_context`s and the two ways a `LenaKeyError` ends the loop).
-The specification is the single top-down fold `fold` / `ctxAt`.  All theorems are for every program `t`
-(any depth, any number of elements and branches) over every key alphabet size `n`.
+The specification is the single top-down fold `fold` / `ctxAt` (executable, in the last section of the model
+file, and compared by the harness with an independent Python prefix fold on every generated case).  All
+theorems are for every program `t` (any depth, any number of elements and branches) over every key alphabet
+size `n`.
 
 Main technical result (`Lemmas/C13Pass.lean`): `build_eq_final : build n t = final n t [{}]` where
 `final t F` puts every object into the state that the *last* context reaching it (computed by the
@@ -24,55 +26,6 @@ skipping elements while the context is empty, and keeping an old `_static_contex
 
 namespace Lena.C13
 open Lena Lena.Val
-
-/-! ## positions -/
-
-def Tree.children : Tree → List Tree
-  | .leaf _ => []
-  | .seq _ cs => cs
-  | .split bs => bs
-
-def St.children : St → List St
-  | .seq _ cs _ => cs
-  | .split bs => bs
-  | _ => []
-
-/-- the sub-program at a path of child indices -/
-def Tree.at? : Tree → List Nat → Option Tree
-  | t, [] => some t
-  | t, i :: p => (t.children[i]?).bind fun c => c.at? p
-
-/-- the object at a path of child indices -/
-def St.at? : St → List Nat → Option St
-  | s, [] => some s
-  | s, i :: p => (s.children[i]?).bind fun c => c.at? p
-
-/-- **the context that the one top-down fold delivers to the node at path `p`** when the context before `t`
-is `c`: through a sequence, the fold of the earlier children (`SetContext` updates with their formatting
-strings resolved against that same prefix, intersections exported by earlier `Split`s); through a `Split`,
-the context of the `Split` itself (every branch gets a copy).  `none`: no such node, or a formatting key of
-the prefix cannot be resolved (then the statement defines nothing). -/
-def ctxAt (n : Nat) : Tree → List Nat → Ctx → Option Ctx
-  | _, [], c => some c
-  | .leaf _, _ :: _, _ => none
-  | .seq _ cs, i :: p, c =>
-    (cs[i]?).bind fun t =>
-      match foldL n (cs.take i) c with
-      | .ok c' => ctxAt n t p c'
-      | .error _ => none
-  | .split bs, i :: p, c => (bs[i]?).bind fun b => ctxAt n b p c
-
-/-- what encloses and precedes a node: for every enclosing sequence its earlier children (in full), for
-every enclosing `Split` nothing but the fact -/
-inductive ConeStep where
-  | seq (earlier : List Tree)
-  | split
-
-def cone : Tree → List Nat → Option (List ConeStep)
-  | _, [] => some []
-  | .leaf _, _ :: _ => none
-  | .seq _ cs, i :: p => (cs[i]?).bind fun c => (cone c p).map (ConeStep.seq (cs.take i) :: ·)
-  | .split bs, i :: p => (bs[i]?).bind fun b => (cone b p).map (ConeStep.split :: ·)
 
 /-! ## every object is in the state of its own history, and the history is a function of the cone -/
 
@@ -340,6 +293,23 @@ theorem get_context_at (n : Nat) (t s : Tree) (p : List Nat) (x : Ctx) (hs : t.a
   obtain ⟨G, h1, h2⟩ := seen_is_prefix_fold_node n t s p x hs hx
   exact ⟨_, h1, by rw [getCtx_final n s G hg, h2]⟩
 
+/-- reading `ctxAt`: the context delivered to child `i` of a sequence is the fold of the earlier children … -/
+theorem ctxAt_child (n : Nat) (kind : Kind) (cs : List Tree) (t : Tree) (i : Nat) (c : Ctx) (ht : cs[i]? = some t) :
+    ctxAt n (.seq kind cs) [i] c = (foldL n (cs.take i) c).toOption := by
+  simp only [ctxAt, ht, Option.bind_some]
+  cases foldL n (cs.take i) c <;> rfl
+
+/-- … and the fold of a run of leaf elements is the left fold of their `SetContext` updates
+(`format_update_with` on the running context; every other element leaves it alone) -/
+theorem foldL_leaves (n : Nat) : ∀ (es : List Elem) (c : Ctx),
+    foldL n (es.map Tree.leaf) c = es.foldlM (fun c e => foldElem n e c) c
+  | [], c => by simp [foldL]; rfl
+  | e :: es, c => by
+    simp only [List.map_cons, foldL, fold, List.foldlM_cons]
+    cases h : foldElem n e c with
+    | error k => rfl
+    | ok c' => simpa [bind, Except.bind] using foldL_leaves n es c'
+
 /-- **a `Split` hands each branch a copy of its context** (specification side: the context delivered inside
 branch `i` is computed from the context of the `Split`, whatever the other branches are) … -/
 theorem ctxAt_split (n : Nat) (bs : List Tree) (b : Tree) (i : Nat) (q : List Nat) (c : Ctx) (hb : bs[i]? = some b) :
@@ -395,75 +365,6 @@ theorem getRec_error_mem : ∀ (p : List Nat) (c : Ctx) (k : Nat), getRec c p = 
         exact Or.inr this
 
 /-! ## run time: static context does not leak -/
-
-/-- what `MakeFilename` holds: nothing for an empty context (which is never delivered) -/
-def seenOpt (x : Ctx) : Option Ctx := if nonEmpty x = true then some x else none
-
-mutual
-/-- run-time reference: the flow through the program when the static context before `t` is `c`.  Only
-`UpdateContextFromStatic` (recursive update of the run-time context with the prefix fold) and `MakeFilename`
-(the name it derives) look at `c`. -/
-def runRef (n : Nat) (ok : OutKeys) (src : List Item) : Tree → Ctx → List Item → Option (List Item)
-  | .leaf .ucfs, c, f => some (f.map fun it => (it.1, updL it.2 c))
-  | .leaf (.mkf t), c, f => f.mapM fun it => (mkfCall n ok t (seenOpt c) it.2).map fun x => (it.1, x)
-  | .leaf .src, _, _ => some src
-  | .leaf (.set ..), _, f => some f
-  | .leaf .store, _, f => some f
-  | .leaf (.write _), _, f => some f
-  | .leaf (.cache _), _, f => some f
-  | .leaf .data, _, f => some f
-  | .seq _ cs, c, f => runRefL n ok src cs c f
-  | .split bs, c, f => if bs.isEmpty then some f else runRefB n ok src bs c f
-def runRefL (n : Nat) (ok : OutKeys) (src : List Item) : List Tree → Ctx → List Item → Option (List Item)
-  | [], _, f => some f
-  | t :: ts, c, f =>
-    match runRef n ok src t c f with
-    | none => none
-    | some f' =>
-      match fold n t c with
-      | .ok c' => runRefL n ok src ts c' f'
-      | .error _ => runRefL n ok src ts c f'        -- (not reached when the fold of the sequence succeeds)
-def runRefB (n : Nat) (ok : OutKeys) (src : List Item) : List Tree → Ctx → List Item → Option (List Item)
-  | [], _, _ => some []
-  | b :: bs, c, f =>
-    match runRef n ok src b c f, runRefB n ok src bs c f with
-    | some x, some y => some (x ++ y)
-    | _, _ => none
-end
-
-mutual
-/-- the flow through a program that ignores static context altogether -/
-def runPlain (src : List Item) : Tree → List Item → List Item
-  | .leaf .src, _ => src
-  | .leaf (.set ..), f => f
-  | .leaf .store, f => f
-  | .leaf .ucfs, f => f
-  | .leaf (.mkf _), f => f
-  | .leaf (.write _), f => f
-  | .leaf (.cache _), f => f
-  | .leaf .data, f => f
-  | .seq _ cs, f => runPlainL src cs f
-  | .split bs, f => if bs.isEmpty then f else runPlainB src bs f
-def runPlainL (src : List Item) : List Tree → List Item → List Item
-  | [], f => f
-  | t :: ts, f => runPlainL src ts (runPlain src t f)
-def runPlainB (src : List Item) : List Tree → List Item → List Item
-  | [], _ => []
-  | b :: bs, f => runPlain src b f ++ runPlainB src bs f
-end
-
-mutual
-/-- no `UpdateContextFromStatic` and no `MakeFilename` anywhere in the program -/
-def Tree.noConsumer : Tree → Bool
-  | .leaf .ucfs => false
-  | .leaf (.mkf _) => false
-  | .leaf _ => true
-  | .seq _ cs => noConsumerL cs
-  | .split bs => noConsumerL bs
-def noConsumerL : List Tree → Bool
-  | [] => true
-  | t :: ts => t.noConsumer && noConsumerL ts
-end
 
 theorem finalB_isEmpty (n : Nat) (bs : List Tree) (F : List Ctx) : (finalB n bs F).isEmpty = bs.isEmpty := by
   cases bs <;> simp [finalB]
@@ -592,7 +493,7 @@ theorem runB_final (n : Nat) (ok : OutKeys) (src : List Item) : ∀ (bs : List T
     rw [lastD_cons_empty] at hrun
     simp only [finalB, runB, runRefB, hrun,
       runB_final n ok src bs F f hF (fun b' hb' => h b' (by simp [hb']))]
-    cases runRef n ok src b (lastD n F) f <;> cases runRefB n ok src bs (lastD n F) f <;> rfl
+    all_goals (cases runRef n ok src b (lastD n F) f <;> cases runRefB n ok src bs (lastD n F) f <;> rfl)
 end
 
 /-- **no leak** (last sentence, second half): when the formatting keys of the program can be resolved, the
